@@ -9,7 +9,7 @@ public API (sync and async SnmpSession.get / get_many against an agent that answ
 the behaviour injects), so that the clients' own receive loops are judged by the same trace specification."""
 import json
 from vlib import env, tlc, sesscheck, scripts, apiscripts, trace
-from vlib.report import Check
+from vlib.report import Check, timing_event
 from vlib.env import ToolError, SEED
 
 CFGS_QUICK = ["v1", "v2c", "v3-noauth", "v3-md5", "v3-sha1-aes"]
@@ -115,7 +115,7 @@ def api_part(chk, thorough, exported):
         seen.add(ri)
         # real sockets + real time (200 ms timeout): a failure is reported only if the same behaviour fails three times in a row
         confirmed = True
-        for _ in range(2):
+        for _ in range(2 if timing_event(ev) else 0):          # only a timeout can be a scheduling artefact; anything else is reported as it stands
             _, _, _, f2 = api_judge([items[ri]], "c04api-confirm")
             if not f2:
                 confirmed = False
